@@ -290,6 +290,10 @@ def run_case(case, res):
                     if n <= 4:
                         configs += [(e, gw, "frac") for e in al.unit_vectors(n)]
                     configs += [(gen, W, "frac") for W in list(al.small_weight_vectors(n, 3))[1:]]
+                    # weights only matter by their ratios: the generic weights on a scale of 1e-10, and weights that differ
+                    # from one another by 1e-10 only (all within any absolute tolerance of each other, but not equal)
+                    configs += [(gen, [w * F(1, 10 ** 10) for w in gw], "frac"),
+                                (gen, [1 + F(i % 2 + i % 3, 10 ** 10) for i in range(n)], "frac")]
             for P, W, rep in configs:
                 c = check_insert(res, U, p, P, W, rep, nodes, labels)
                 # chained second insertion from the non-initial state (generic configurations, first call single node)
